@@ -388,6 +388,13 @@ func TestDescriptorTombstonesRapid(t *testing.T) {
 					if t := gossip.Tombstones(v, vp); t != "" {
 						fail("a reader of replica %d sees a tombstone: %s", i, t)
 					}
+					// ... and everything else the replica holds (the removal markers go, nothing more)
+					if got, want := model.CanonDescN(v), model.CanonDescN(model.StripDesc(rs[i])); got != want {
+						fail("a reader of replica %d sees %s, the replica holds (removal markers aside) %s", i, got, want)
+					}
+					if got, want := model.CanonPDescN(vp), model.CanonPDescN(model.StripPDesc(ps[i])); got != want {
+						fail("a reader of replica %d sees %s, the replica holds (removal markers aside) %s", i, got, want)
+					}
 				}
 			}
 		})
